@@ -698,28 +698,6 @@ func checkC09Payload(c *Ctx) {
 				sprintf("%s writes a newline-terminated line handed in by its callers, and %s", fname(fn), why))
 			continue
 		}
-		// one Marshal result, or — after a fallback encoding of an error answer — a merge of Marshal results only
-		allMarshal := func(v ssa.Value) bool {
-			seen := map[ssa.Value]bool{}
-			var walk func(v ssa.Value) bool
-			walk = func(v ssa.Value) bool {
-				if seen[v] {
-					return true
-				}
-				seen[v] = true
-				if phi, ok := v.(*ssa.Phi); ok {
-					for _, e := range phi.Edges {
-						if !walk(e) {
-							return false
-						}
-					}
-					return len(phi.Edges) > 0
-				}
-				o := originCall(v)
-				return o != nil && ir.CallName(o) == "encoding/json.Marshal"
-			}
-			return walk(v)
-		}
 		c.R.Check((oc != nil && ir.CallName(oc) == "encoding/json.Marshal") || allMarshal(payload.Call.Args[0]), "R-payload", construct, c.Pos(payload.Pos()),
 			"line payload originates from json.Marshal", sprintf("%s writes a newline-terminated line whose payload does not come from json.Marshal", fname(fn)))
 	}
@@ -788,6 +766,29 @@ func verbIndex(format, needle string) int {
 
 // paramFromMarshalOrConstLine: every caller passes a json.Marshal result (possibly converted) or a
 // constant without newline for parameter p of fn.
+// allMarshal: one json.Marshal result, or — after a fallback encoding of an error answer — a merge of Marshal results only.
+func allMarshal(v ssa.Value) bool {
+	seen := map[ssa.Value]bool{}
+	var walk func(v ssa.Value) bool
+	walk = func(v ssa.Value) bool {
+		if seen[v] {
+			return true
+		}
+		seen[v] = true
+		if phi, ok := v.(*ssa.Phi); ok {
+			for _, e := range phi.Edges {
+				if !walk(e) {
+					return false
+				}
+			}
+			return len(phi.Edges) > 0
+		}
+		o := originCall(v)
+		return o != nil && ir.CallName(o) == "encoding/json.Marshal"
+	}
+	return walk(v)
+}
+
 func paramFromMarshalOrConstLine(c *Ctx, fn *ssa.Function, p *ssa.Parameter) (bool, string) {
 	idx := -1
 	for i, q := range fn.Params {
@@ -815,6 +816,9 @@ func paramFromMarshalOrConstLine(c *Ctx, fn *ssa.Function, p *ssa.Parameter) (bo
 			continue
 		}
 		if oc := originCall(a); oc != nil && ir.CallName(oc) == "encoding/json.Marshal" {
+			continue
+		}
+		if allMarshal(a) {
 			continue
 		}
 		// a value that is itself a parameter or built from a session-id generator: accept only strings
